@@ -91,6 +91,12 @@ pub struct Cx<'g> {
     pub ref_ret: Option<(bool, String)>,
     /// explicit randomness parameters `rand1 ..` used so far (see `manifest::RANDOM_SOURCES`)
     pub rand_sites: usize,
+    /// while translating `let x = match .. { .. => &mut P[lo..hi], .. }` (every value leaf is such a sub-slice of the same
+    /// `P` from the same `lo`): the leaves yield `hi`; `x` becomes an alias of the place `P[lo..hi]`
+    pub range_capture: Option<(Option<syn::Expr>, Option<syn::Expr>)>,
+    /// local closures `let f = |a: A, b: B| body;` in scope: a call `f(x, y)` is translated as the block
+    /// `{ let a: A = x; let b: B = y; body }` (the body may not `return` / `?` / `break` out)
+    pub local_closures: Vec<(String, syn::ExprClosure)>,
     /// values of places (keyed by their `Debug` text) read into temporaries just before a `call(..)?`: what the pure
     /// description of the caller's state after the callee's `Err` uses for places that cannot be read purely
     pub snapshots: std::collections::BTreeMap<String, String>,
@@ -152,6 +158,8 @@ impl<'g> Cx<'g> {
             opt_mut_params: Vec::new(),
             ref_ret: None,
             rand_sites: 0,
+            local_closures: Vec::new(),
+            range_capture: None,
             snapshots: std::collections::BTreeMap::new(),
             aliases: vec![Vec::new()],
             loop_stack: Vec::new(),
@@ -338,7 +346,14 @@ impl<'g> Cx<'g> {
     /// a statement-position `if` / `match` that assigns several outer variables but whose branches all leave the fn:
     /// Lean cannot infer the type of the tuple pattern, spell it out
     fn typed_if_diverging(&self, m: &[String], d: Doc) -> Doc {
-        if m.len() < 2 || !d.all_leaves_diverge() {
+        if !d.all_leaves_diverge() {
+            return d;
+        }
+        if m.is_empty() {
+            return Doc::Typed(Box::new(d), "Unit".to_string());
+        }
+        if m.len() == 1 {
+            // (Lean infers the type of a single variable from its later uses)
             return d;
         }
         let mut tys = Vec::new();
@@ -347,6 +362,9 @@ impl<'g> Cx<'g> {
                 Some(t) if !t.has_unknown() => tys.push(super::lean_ty(self.g, &self.ns, &t)),
                 _ => return d,
             }
+        }
+        if tys.len() == 1 {
+            return Doc::Typed(Box::new(d), tys[0].clone());
         }
         Doc::Typed(Box::new(d), format!("({})", tys.join(" × ")))
     }
@@ -368,7 +386,8 @@ impl<'g> Cx<'g> {
 
     /// outer variables assigned inside `e` (declared in the current scopes)
     pub fn assigned_in_expr(&self, e: &syn::Expr) -> Vec<String> {
-        let mut a = Assigned::new(&self.mut_methods);
+        let closures = self.local_closures.clone();
+        let mut a = Assigned::new(&self.mut_methods, &closures);
         a.byref = self.byref_vars();
         a.visit_expr(e);
         self.resolve_assigned(a.out)
@@ -401,7 +420,8 @@ impl<'g> Cx<'g> {
         r.into_iter().collect()
     }
     pub fn assigned_in_block(&self, b: &syn::Block, bound: &[String]) -> Vec<String> {
-        let mut a = Assigned::new(&self.mut_methods);
+        let closures = self.local_closures.clone();
+        let mut a = Assigned::new(&self.mut_methods, &closures);
         a.byref = self.byref_vars();
         for n in bound {
             a.declare(n);
@@ -787,7 +807,9 @@ impl<'g> Cx<'g> {
         let saved_ignored = self.ignored_locals.len();
         let saved_backings = self.backings.len();
         let saved_globs = self.glob_enums.len();
+        let saved_closures = self.local_closures.len();
         let r = self.items_inner(items, tail, span);
+        self.local_closures.truncate(saved_closures);
         self.glob_enums.truncate(saved_globs);
         self.aliases.pop();
         self.ro.pop();
@@ -816,6 +838,38 @@ impl<'g> Cx<'g> {
                     let mut names = Vec::new();
                     super::analysis::pat_idents(&l.pat, &mut names);
                     self.ignored_locals.extend(names);
+                }
+                syn::Stmt::Local(l)
+                    if matches!(&l.init, Some(i) if matches!(&*i.expr, syn::Expr::Closure(_)))
+                        && matches!(&l.pat, syn::Pat::Ident(pi) if pi.subpat.is_none() && pi.by_ref.is_none()) =>
+                {
+                    // `let f = |a: A, b: B| body;`: remembered; every call `f(x, y)` is the body, inlined
+                    let name = match &l.pat {
+                        syn::Pat::Ident(pi) => pi.ident.to_string(),
+                        _ => unreachable!(),
+                    };
+                    let cl = match &*l.init.as_ref().unwrap().expr {
+                        syn::Expr::Closure(c) => c.clone(),
+                        _ => unreachable!(),
+                    };
+                    if cl.asyncness.is_some() || cl.constness.is_some() {
+                        return self.bail(l.span(), "unsupported closure");
+                    }
+                    for inp in &cl.inputs {
+                        let ok = match inp {
+                            syn::Pat::Type(pt) => matches!(&*pt.pat, syn::Pat::Ident(pi) if pi.subpat.is_none() && pi.by_ref.is_none()),
+                            syn::Pat::Ident(pi) => pi.subpat.is_none() && pi.by_ref.is_none(),
+                            _ => false,
+                        };
+                        if !ok {
+                            return self.bail(inp.span(), "unsupported closure parameter pattern");
+                        }
+                    }
+                    if super::analysis::expr_leaves_fn(&cl.body) {
+                        return self.bail(cl.body.span(), "a local closure whose body leaves (`return` / `?` / labelled jump) is not supported");
+                    }
+                    self.check_local_name(&name, l.span())?;
+                    self.local_closures.push((name, cl));
                 }
                 syn::Stmt::Local(l) => {
                     // `let x = f(..)?;` with a const-generic `f`: the array length may only be fixed by a later use
@@ -926,10 +980,46 @@ impl<'g> Cx<'g> {
         t
     }
 
+    /// the expressions a value-position `match` / `if` / block can evaluate to (diverging leaves are skipped)
+    fn value_leaves<'e>(e: &'e syn::Expr, out: &mut Vec<&'e syn::Expr>) {
+        match e {
+            syn::Expr::Paren(p) => Self::value_leaves(&p.expr, out),
+            syn::Expr::Match(m) => {
+                for a in &m.arms {
+                    Self::value_leaves(&a.body, out);
+                }
+            }
+            syn::Expr::If(i) => {
+                if let Some(syn::Stmt::Expr(t, None)) = i.then_branch.stmts.last() {
+                    Self::value_leaves(t, out);
+                }
+                if let Some((_, el)) = &i.else_branch {
+                    Self::value_leaves(el, out);
+                }
+            }
+            syn::Expr::Block(b) if b.label.is_none() => {
+                if let Some(syn::Stmt::Expr(t, None)) = b.block.stmts.last() {
+                    Self::value_leaves(t, out);
+                }
+            }
+            syn::Expr::Return(_) | syn::Expr::Break(_) | syn::Expr::Continue(_) => {}
+            syn::Expr::Macro(m) => {
+                let name = m.mac.path.segments.last().map(|s| s.ident.to_string()).unwrap_or_default();
+                if !(name == "unreachable" || name == "panic" || name == "unimplemented" || name == "todo") {
+                    out.push(e);
+                }
+            }
+            other => out.push(other),
+        }
+    }
+
     /// `return …` / diverging macro in value position
     fn diverging(&mut self, e: &syn::Expr, stmts: &mut Vec<Stmt>) -> R<Option<Doc>> {
         match e {
             syn::Expr::Return(r) => Ok(Some(self.ret_doc(r.expr.as_deref(), true, r.span(), stmts)?)),
+            // `break` / `continue` of an enclosing loop in value position (`let x = match .. { .. => break, .. }`)
+            syn::Expr::Continue(c) => Ok(Some(self.loop_jump("cont", &c.label, e.span())?)),
+            syn::Expr::Break(b) if b.expr.is_none() => Ok(Some(self.loop_jump("brk", &b.label, e.span())?)),
             syn::Expr::Macro(m) => {
                 let name = m.mac.path.segments.last().map(|s| s.ident.to_string()).unwrap_or_default();
                 if name == "unreachable" || name == "panic" || name == "unimplemented" || name == "todo" {
@@ -1305,6 +1395,59 @@ impl<'g> Cx<'g> {
             Some(i) => return self.bail(i.expr.span(), "`let … else` is not supported"),
             None => return self.bail(l.span(), "`let` without initialiser is not supported"),
         };
+        // `let x = match .. { .. => &mut P[lo..hi], .. }`: `x` is an alias of the sub-slice (a place), not a copy
+        if let syn::Pat::Ident(pi) = pat {
+            if pi.subpat.is_none() && pi.by_ref.is_none() && matches!(&**init, syn::Expr::Match(_) | syn::Expr::If(_) | syn::Expr::Block(_)) {
+                let mut leaves: Vec<&syn::Expr> = Vec::new();
+                Self::value_leaves(init, &mut leaves);
+                let is_mut_range = |e: &syn::Expr| -> bool {
+                    if let syn::Expr::Reference(r) = e {
+                        if r.mutability.is_some() {
+                            let mut inner: &syn::Expr = &r.expr;
+                            while let syn::Expr::Paren(p) = inner {
+                                inner = &p.expr;
+                            }
+                            if let syn::Expr::Index(ix) = inner {
+                                return matches!(&*ix.index, syn::Expr::Range(_));
+                            }
+                        }
+                    }
+                    false
+                };
+                if !leaves.is_empty() && leaves.iter().all(|e| is_mut_range(e)) {
+                    let name = pi.ident.to_string();
+                    self.check_local_name(&name, pat.span())?;
+                    self.range_capture = Some((None, None));
+                    let r = self.expr(init, Some(&Ty::usize()), stmts);
+                    let cap = self.range_capture.take();
+                    let (hi, _) = r?;
+                    let (base, lo) = match cap {
+                        Some((Some(b), lo)) => (b, lo),
+                        _ => return self.bail(init.span(), "internal: no sub-slice captured"),
+                    };
+                    let pl = self.place(&base, stmts)?;
+                    let elem = match pl.ty() {
+                        Ty::List(e, _) => e,
+                        _ => return self.bail(base.span(), "sub-slice of a value that is not a list"),
+                    };
+                    let lo_t = match &lo {
+                        Some(e) => {
+                            if !matches!(e, syn::Expr::Lit(_)) {
+                                return self.bail(e.span(), "the lower bound of an aliased sub-slice must be a literal");
+                            }
+                            self.expr(e, Some(&Ty::usize()), stmts)?.0
+                        }
+                        None => "0".to_string(),
+                    };
+                    let hv = self.fresh();
+                    stmts.push(Stmt::Let(hv.clone(), hi));
+                    let site = self.site(init);
+                    let place = Place::Range(Box::new(pl), lo_t, Some(hv), Ty::List(elem, crate::ty::ListKind::Slice), site);
+                    self.aliases.last_mut().unwrap().push((name, place));
+                    return Ok(());
+                }
+            }
+        }
         // `let x: [T; LEN] = f(..)` : LEN is the const-generic argument of `f` (if it has one)
         let mut hint: Option<String> = None;
         if let syn::Pat::Type(pt) = &l.pat {
@@ -1460,12 +1603,48 @@ impl<'g> Cx<'g> {
         }
     }
 
+    /// `f(x, y)` for a local closure `f = |a: A, b: B| body`: the block `{ let a: A = x; let b: B = y; body }`
+    pub fn closure_call_block(&self, e: &syn::Expr) -> Option<syn::Expr> {
+        let c = match e {
+            syn::Expr::Call(c) => c,
+            _ => return None,
+        };
+        let p = match &*c.func {
+            syn::Expr::Path(p) if p.qself.is_none() && p.path.segments.len() == 1 => p,
+            _ => return None,
+        };
+        let name = p.path.segments[0].ident.to_string();
+        let (_, cl) = self.local_closures.iter().rev().find(|(n, _)| *n == name)?;
+        if cl.inputs.len() != c.args.len() {
+            return None;
+        }
+        let mut lets: Vec<syn::Stmt> = Vec::new();
+        for (inp, a) in cl.inputs.iter().zip(c.args.iter()) {
+            let st: syn::Stmt = syn::parse_quote! { let #inp = #a; };
+            lets.push(st);
+        }
+        let body = &cl.body;
+        // (a block body is spliced, so that its statements stay statements)
+        let blk: syn::Expr = match &**body {
+            syn::Expr::Block(b) if b.label.is_none() => {
+                let inner = &b.block.stmts;
+                syn::parse_quote! { { #(#lets)* #(#inner)* } }
+            }
+            other => syn::parse_quote! { { #(#lets)* #other } },
+        };
+        Some(blk)
+    }
+
     /// A statement. Returns `Some(doc)` when it diverges (`return`).
     fn stmt(&mut self, e: &syn::Expr, stmts: &mut Vec<Stmt>) -> R<Option<Doc>> {
         if self.stmt_is_ignored(e) {
             // writes an ignored field / local only: dropped, its operands are evaluated for their effects
             self.drop_ignored_stmt(e, stmts)?;
             return Ok(None);
+        }
+        // a call of a local closure in statement position: its body as a block statement
+        if let Some(blk) = self.closure_call_block(e) {
+            return self.stmt(&blk, stmts);
         }
         match e {
             syn::Expr::Return(r) => Ok(Some(self.ret_doc(r.expr.as_deref(), true, r.span(), stmts)?)),
@@ -1529,7 +1708,17 @@ impl<'g> Cx<'g> {
             }
             syn::Expr::Continue(c) => Ok(Some(self.loop_jump("cont", &c.label, e.span())?)),
             syn::Expr::Break(b) if b.expr.is_none() => Ok(Some(self.loop_jump("brk", &b.label, e.span())?)),
-            syn::Expr::Loop(_) | syn::Expr::Break(_) => self.bail(e.span(), "`loop` and valued `break` are not supported"),
+            syn::Expr::Loop(l) => {
+                // `loop { body }` is `while true { body }` (fuel from the manifest, like every `while`)
+                let body = &l.body;
+                let w: syn::ExprWhile = match &l.label {
+                    Some(lb) => syn::parse_quote! { #lb while true #body },
+                    None => syn::parse_quote! { while true #body },
+                };
+                self.while_loop(&w, stmts)?;
+                Ok(None)
+            }
+            syn::Expr::Break(_) => self.bail(e.span(), "valued `break` is not supported"),
             _ => {
                 let (v, _) = self.expr(e, None, stmts)?;
                 if v != "()" {
@@ -1985,29 +2174,58 @@ impl<'g> Cx<'g> {
     }
 
     /// `match x { P if g => a, rest.. }` ≡ `match x { P => if g { a } else { match x { rest.. } }, rest.. }` for a scrutinee
-    /// that is a plain variable / field path (evaluating it again has no effect)
+    /// that is a plain variable / field path (evaluating it again has no effect).  Consecutive arms with the same
+    /// pattern (up to `ref`) form one arm: `P if g1 => a1, P if g2 => a2, P => a3` ≡ `P => if g1 { a1 } else if g2 { a2 }
+    /// else { a3 }` (no redundant alternatives, which Lean rejects).
     fn desugar_guards(m: &syn::ExprMatch) -> syn::ExprMatch {
+        fn norm(p: &syn::Pat) -> String {
+            quote::quote!(#p).to_string().replace("ref mut ", "").replace("ref ", "")
+        }
+        fn block_of(e: &syn::Expr) -> syn::Block {
+            syn::Block { brace_token: Default::default(), stmts: vec![syn::Stmt::Expr(e.clone(), None)] }
+        }
         let mut out = m.clone();
-        for i in 0..out.arms.len() {
-            if let Some((_, g)) = out.arms[i].guard.take() {
+        out.arms = Vec::new();
+        let arms = &m.arms;
+        let mut i = 0;
+        while i < arms.len() {
+            if arms[i].guard.is_none() {
+                out.arms.push(arms[i].clone());
+                i += 1;
+                continue;
+            }
+            let key = norm(&arms[i].pat);
+            let mut j = i;
+            let mut chain: Vec<(syn::Expr, syn::Expr)> = Vec::new();
+            while j < arms.len() && arms[j].guard.is_some() && norm(&arms[j].pat) == key {
+                chain.push(((*arms[j].guard.as_ref().unwrap().1).clone(), (*arms[j].body).clone()));
+                j += 1;
+            }
+            // what happens when every guard of the run fails
+            let mut else_expr: syn::Expr = if j < arms.len() && arms[j].guard.is_none() && norm(&arms[j].pat) == key {
+                let e = (*arms[j].body).clone();
+                j += 1;
+                syn::Expr::Block(syn::ExprBlock { attrs: vec![], label: None, block: block_of(&e) })
+            } else {
                 let mut rest = m.clone();
-                rest.arms = m.arms[i + 1..].to_vec();
+                rest.arms = arms[j..].to_vec();
                 let rest = Self::desugar_guards(&rest);
-                let body = out.arms[i].body.clone();
-                let then_block: syn::Block = syn::Block { brace_token: Default::default(), stmts: vec![syn::Stmt::Expr((*body).clone(), None)] };
-                let else_expr = syn::Expr::Block(syn::ExprBlock {
-                    attrs: vec![],
-                    label: None,
-                    block: syn::Block { brace_token: Default::default(), stmts: vec![syn::Stmt::Expr(syn::Expr::Match(rest), None)] },
-                });
-                out.arms[i].body = Box::new(syn::Expr::If(syn::ExprIf {
+                syn::Expr::Block(syn::ExprBlock { attrs: vec![], label: None, block: block_of(&syn::Expr::Match(rest)) })
+            };
+            for (g, body) in chain.into_iter().rev() {
+                else_expr = syn::Expr::If(syn::ExprIf {
                     attrs: vec![],
                     if_token: Default::default(),
-                    cond: g,
-                    then_branch: then_block,
+                    cond: Box::new(g),
+                    then_branch: block_of(&body),
                     else_branch: Some((Default::default(), Box::new(else_expr))),
-                }));
+                });
             }
+            let mut arm = arms[i].clone();
+            arm.guard = None;
+            arm.body = Box::new(else_expr);
+            out.arms.push(arm);
+            i = j;
         }
         out
     }
@@ -2025,6 +2243,20 @@ impl<'g> Cx<'g> {
                 }
             }
             if !matches!(sc, syn::Expr::Path(p) if p.path.segments.len() == 1) {
+                // guards on a computed scrutinee (`match f(..) { P if g => .. }`): the value is bound to a fresh
+                // variable first (evaluated once, as in Rust), then matched
+                if matches!(sc, syn::Expr::Call(_) | syn::Expr::MethodCall(_)) {
+                    let k = self.fresh();
+                    let tmp = syn::Ident::new(&format!("scrut_{}", k), proc_macro2::Span::call_site());
+                    let scrut = &m.expr;
+                    let l: syn::Stmt = syn::parse_quote! { let #tmp = #scrut; };
+                    if let syn::Stmt::Local(loc) = &l {
+                        self.local(loc, stmts)?;
+                    }
+                    let mut m2 = m.clone();
+                    m2.expr = Box::new(syn::parse_quote! { #tmp });
+                    return self.match_doc(&m2, tail, stmts);
+                }
                 return self.bail(m.expr.span(), "match guards are only supported on a variable / field scrutinee");
             }
             if m.arms.last().map(|a| a.guard.is_some()).unwrap_or(true) {
